@@ -172,7 +172,7 @@ def _cap_cases(dims=(2, 3)):
     return cases
 
 
-@contract(HD + ".cell_averaged_pdf", ["C02"], _cap_cases(), name="hdc.cell_averaged_pdf", thorough_cases=_cap_cases((4,)))
+@contract(HD + ".cell_averaged_pdf", ["C02", "C15"], _cap_cases(), name="hdc.cell_averaged_pdf", thorough_cases=_cap_cases((4,)))
 class CellAveragedPdf(Contract):
     """cell probabilities are the documented CDF differences of the (conditional) distribution: for cell centre c
     and conditioning cell centre g:  (F(c + dx/2 | g) - F(c - dx/2 | g)) / dx, laid out on the variable's own axis
@@ -351,7 +351,7 @@ class HdcComputeRegion(Contract):
             cx.oblige("post.full_structure.ones", t if T.sort_of(t) == "bool" else T.eq(t, 1), "post", "all 3^n - 1 neighbours count (full structure)")
 
 
-@contract(HD + ".cell_averaged_joint_pdf", ["C02"], [dict(co=co) for co in structures((2, 3))], name="hdc.cell_averaged_joint_pdf",
+@contract(HD + ".cell_averaged_joint_pdf", ["C02", "C15"], [dict(co=co) for co in structures((2, 3))], name="hdc.cell_averaged_joint_pdf",
           thorough_cases=[dict(co=co) for co in structures((4,))])
 class CellAveragedJoint(Contract):
     """joint cell-averaged density = broadcast product of the per-variable cell-averaged densities, every variable
